@@ -70,28 +70,41 @@ theorem C12_immediate (c : Cfg) (tr : List Ev) (p : ObjId) (x : Cid) (v : Val) :
   intro s h hi
   exact (invQ_run c tr _ (invQ_init c) p).imm x (by rw [h]; rfl) hi
 
-/-- "activity has stopped": no coalescing timer and no `call_soon` flush is pending on any connection -/
+/-- "activity has stopped" on the loop: no coalescing timer and no `call_soon` flush is pending on
+    any connection -/
 def Quiescent (s : St) : Prop := ∀ p, p < s.nobj → ¬ pendingFlush s p
 
-/-- **C12_quiescent** (statement). After every history respecting the reuse hypothesis, whenever
-    activity has stopped: every connection that has been subscribed to `x` without interruption
-    since the most recent notified change of `x` (ghost `since`) is still registered and subscribed
-    and last learned — from the latest event it received or its own acknowledged write, whichever
-    came later (ghost `learned`) — exactly the current value of `x` (always-null characteristics
-    excluded from the value comparison). -/
+/-- "activity has stopped" altogether: additionally no hand-off from a worker thread is waiting for
+    the loop -/
+def QuiescentFull (s : St) : Prop := Quiescent s ∧ s.handoffs = []
+
+/-- **C12_quiescent** (full statement, every interleaving of application changes — on the loop
+    thread *and on worker threads* — controller writes, (un)subscriptions, timers, connects and
+    disconnects). After every history respecting the reuse hypothesis, whenever activity has
+    stopped: every connection that has been subscribed to `x` without interruption since the most
+    recent notified change of `x` (ghost `since`) is still registered and subscribed and last
+    learned — from the latest event it received or its own acknowledged write, whichever came later
+    (ghost `learned`) — exactly the current value of `x` (always-null characteristics excluded). -/
 def C12_quiescent_statement (c : Cfg) : Prop :=
   ∀ tr : List Ev, ReuseOK c (init c) tr →
     let s := (run c (init c) tr).1
-    Quiescent s → ∀ p x, (s.obj p).since x = true → c.nul x = false →
+    QuiescentFull s → ∀ p x, (s.obj p).since x = true → c.nul x = false →
       registered s p ∧ subscribed s x (s.obj p).addr ∧ (s.obj p).learned x = s.value x
 
-/-- **C12_quiescent.** Proved from the invariant
+/-- **C12_quiescent_partial.** The statement holds for every history in which the application
+    changes values on the loop thread only (`NoWorker`: no `AppSetWorker`; what is missing for the
+    full statement is exactly the worker-thread hand-off, see `C12_quiescent_fails`). Proved from
+    the invariant
     `since p x → queue p x ⊆ {value x} ∧ (learned p x = value x ∨ (queue p x = value x ∧ (timer p ∨ soon p)))`
     (`InvL`), i.e. DESIGN's `owed(c,x) → queue c x = some (value x) ∧ (timer c ∨ soon c)` with
-    `owed c x := since c x ∧ learned c x ≠ value x`. Holds only with the C12 repair (`fix12`). -/
-theorem C12_quiescent (c : Cfg) (h12 : c.fix12 = true) (h13 : c.fix13 = true) : C12_quiescent_statement c := by
-  intro tr hr s hq p x hs hn
-  have hL : InvL c s := invL_run c h12 h13 tr hr
+    `owed c x := since c x ∧ learned c x ≠ value x`. Needs the C12 repair (`fix12`). -/
+theorem C12_quiescent_partial (c : Cfg) (h12 : c.fix12 = true) (h13 : c.fix13 = true)
+    (tr : List Ev) (hr : ReuseOK c (init c) tr) (hw : NoWorker tr) :
+    let s := (run c (init c) tr).1
+    Quiescent s → ∀ p x, (s.obj p).since x = true → c.nul x = false →
+      registered s p ∧ subscribed s x (s.obj p).addr ∧ (s.obj p).learned x = s.value x := by
+  intro s hq p x hs hn
+  have hL : InvL c s := invL_run c h12 h13 tr hr hw
   have hA : InvA s := invA_run c h13 tr _ (invA_init c)
   obtain ⟨g1, g2, g3⟩ := hL p x hs
   obtain ⟨v, v1, _, v3⟩ := g3 hn
@@ -105,11 +118,11 @@ theorem C12_quiescent (c : Cfg) (h12 : c.fix12 = true) (h13 : c.fix13 = true) : 
 theorem C12_drain (c : Cfg) (s : St) : Quiescent (run c s (drainAll s)).1 :=
   drainAll_quiet c s
 
-/-- **C12_quiescent, "all traces, then drain" form.** After any history respecting the reuse
-    hypothesis followed by the drain, every connection subscribed to `x` since its last change has
-    learned the current value of `x`. -/
-theorem C12_quiescent_after_drain (c : Cfg) (h12 : c.fix12 = true) (h13 : c.fix13 = true) (tr : List Ev)
-    (hr : ReuseOK c (init c) tr) :
+/-- **C12_quiescent_after_drain_partial** ("all traces, then drain" form). After any history
+    without worker-thread changes respecting the reuse hypothesis, followed by the drain, every
+    connection subscribed to `x` since its last change has learned the current value of `x`. -/
+theorem C12_quiescent_after_drain_partial (c : Cfg) (h12 : c.fix12 = true) (h13 : c.fix13 = true) (tr : List Ev)
+    (hr : ReuseOK c (init c) tr) (hw : NoWorker tr) :
     let s := (run c (init c) tr).1
     let s' := (run c s (drainAll s)).1
     ∀ p x, (s'.obj p).since x = true → c.nul x = false →
@@ -117,8 +130,15 @@ theorem C12_quiescent_after_drain (c : Cfg) (h12 : c.fix12 = true) (h13 : c.fix1
   intro s s' p x hs hn
   have hr' : ReuseOK c (init c) (tr ++ drainAll s) :=
     (reuseOK_append c _ tr _).mpr ⟨hr, reuseOK_noConnect c _ (drainAll_noConnect s) _⟩
+  have hw' : NoWorker (tr ++ drainAll s) := by
+    intro e he
+    rcases List.mem_append.mp he with h | h
+    · exact hw e h
+    · simp only [drainAll, drainList, List.mem_flatMap] at h
+      obtain ⟨q, _, hq⟩ := h
+      rcases drainOf_events s q e hq with rfl | rfl <;> simp [notWorker]
   have e : (run c (init c) (tr ++ drainAll s)).1 = s' := run_append c _ tr _
-  have := C12_quiescent c h12 h13 (tr ++ drainAll s) hr'
+  have := C12_quiescent_partial c h12 h13 (tr ++ drainAll s) hr' hw'
   simp only [e] at this
   exact this (C12_drain c s) p x hs hn
 
@@ -181,6 +201,51 @@ theorem C12_legacy_resubscribe_counterexample :
     (run exCfg12 (init exCfg12) resubTrace).2
       = [Out.resp 0 0 204 Body.none, Out.resp 0 0 204 Body.none, Out.resp 0 0 204 Body.none] := by
   decide
+
+/-! ### the worker-thread hand-off: the full statement fails on the code as it is -/
+
+/-- A subscribed to x; a worker thread sets x = 10 (value 10, hand-off queued for the loop); before
+    the loop runs the hand-off controller B writes x = 20 (value 20, A's queue entry 20); the
+    deferred hand-off runs and overwrites A's entry with the captured 10; the timer fires. -/
+def workerTrace : List Ev :=
+  [Ev.connect 0, Ev.verify 0, Ev.data 0 (Req.put 0 (some true) none false), Ev.connect 1, Ev.verify 1,
+   Ev.appSetWorker 0 10, Ev.data 1 (Req.put 0 none (some 20) false), Ev.handOff, Ev.timerFire 0]
+
+instance instDecAllLost12 (s : St) (a : Addr) : Decidable (allLost s a) := by unfold allLost; infer_instance
+
+instance (s : St) (e : Ev) : Decidable (reuseCond s e) := by
+  cases e <;> simp only [reuseCond] <;> infer_instance
+
+instance decReuseOK (c : Cfg) : (s : St) → (tr : List Ev) → Decidable (ReuseOK c s tr)
+  | _, [] => isTrue trivial
+  | s, e :: es =>
+    have := decReuseOK c (step c s e).1 es
+    decidable_of_iff _ (reuseOK_cons c s e es).symm
+
+instance (s : St) : Decidable (Quiescent s) := by unfold Quiescent; infer_instance
+instance (s : St) : Decidable (QuiescentFull s) := by unfold QuiescentFull; infer_instance
+instance (s : St) (p : ObjId) : Decidable (registered s p) := by unfold registered; infer_instance
+
+/-- the witness: everything has stopped, A has been subscribed all along, its only EVENT carried 10,
+    the value is 20 (fully repaired model otherwise: `fix12`, `fix13`, `fixResub` all on) -/
+theorem C12_worker_handoff_counterexample :
+    let r := run exCfg12 (init exCfg12) workerTrace
+    ReuseOK exCfg12 (init exCfg12) workerTrace ∧ QuiescentFull r.1 ∧
+    r.2 = [Out.resp 0 0 204 Body.none, Out.resp 1 0 204 Body.none, Out.event 0 0 [(0, 10)]] ∧
+    (r.1.obj 0).since 0 = true ∧ (r.1.obj 0).learned 0 = some 10 ∧ r.1.value 0 = some 20 := by
+  decide
+
+/-- **C12_quiescent_fails.** The full statement is false for the code as it is: a change handed
+    over from a worker thread can be overtaken by a controller write and is then delivered last.
+    Replayed on the real code (real thread, `call_soon_threadsafe`) by the harness; signature
+    `C12:worker-change-overtaken-by-newer-change`. -/
+theorem C12_quiescent_fails : ¬ C12_quiescent_statement exCfg12 := by
+  intro h
+  have w := C12_worker_handoff_counterexample
+  have := h workerTrace w.1 w.2.1 0 0 w.2.2.2.1 (by decide)
+  have e1 := this.2.2
+  rw [w.2.2.2.2.1, w.2.2.2.2.2] at e1
+  cases e1
 
 /-! ### non-vacuity -/
 
